@@ -48,6 +48,7 @@ P["C02"] = dict(
          "their rely contracts. Rendering functions of fmt-derived code (format.go) are classified by call site, their digit "
          "generation is not re-verified for content (only for index safety, under C11).",
     decided=["every operand-class write site runs in unsafe mode unless a Safe context/classification applies (S1), all paths, all inputs",
+             "a SafeValue override is justified by the value being printed (not a stale p.arg); a SafeMessager's bad-verb report shows the message, not the value",
              "the pool hands out printers with no stale override/context (free precondition), so earlier calls cannot declassify"],
     undecided=["byte-for-byte equality of two redacted outputs (relational); decided only via the confinement condition above"])
 
@@ -66,7 +67,10 @@ P["C05"] = dict(
           "unless everything is forced unsafe, and inside a Safe context nothing is written in unsafe mode; padding follows the "
           "class of what it pads; mode/override/context are restored on every path (normal and unwinding) by the restorer "
           "contracts; operands classified safe (SafeValue, registered type, Safe(), safe SafePrinter methods) switch to the safe "
-          "mode before rendering. Also carries the frame and ownership obligations of package rfmt."),
+          "mode before rendering: handleMethods REQUIRES that a SafeValue operand, or an operand whose dynamic type is in the "
+          "registry, arrives under a context (so every caller, also the reflection walk over interface-typed slots, must have "
+          "classified it first), and its dispatch-completeness postcondition says which branch handled the operand; the "
+          "signedness of integer leaves is a ghost of pp.fmtInteger. Also carries the frame and ownership obligations of package rfmt."),
     ref="DESIGN 4 (C05)",
     note=TRUST + "Equality of the safe text with 'what fmt would print' is C04 (not applicable); C05 decides on which side of the "
          "envelopes each payload class lands, for all formats and operands.",
@@ -118,7 +122,9 @@ P["C09"] = dict(
           "side at the moment of the write (safe methods: SafeEscaped, unsafe methods: UnsafeEscaped, Print/Printf: raw with the "
           "inner output already classified), restored afterwards; single-byte unsafe writes replace non-ASCII bytes; "
           "well-formedness and line-safety of the result are C01/C03; io.Writer/fmt.State writes on the printer are unsafe "
-          "writes. The pool precondition rules out stale overrides."),
+          "writes. The pool precondition rules out stale overrides. The escaper's truncated-tail guard is tied to a spec function "
+          "badTail (fires exactly on an incomplete rune, not on a valid U+FFFD), and Buffer.Write/WriteString/WriteByte/WriteRune "
+          "carry content postconditions (the argument's bytes are the new tail of the buffer, pending until the escaper validates them)."),
     ref="DESIGN 4 (C09)",
     note=TRUST + "'Exactly once, in call order' is a content equation over the whole history and is not stated; each call's own "
          "write is verified (one Buffer write per call, bytes preserved by the Buffer contract).",
@@ -170,7 +176,8 @@ P["C13"] = dict(
     text=("Accessors (Len, Cap, GetMode, String, RedactableString, RedactableBytes) are proved to leave every field of the buffer "
           "and every byte visible through it unchanged (frame obligations + kept): finalize on the by-value copy is copy-on-write "
           "for escaping and only appends beyond the original's length; Reset/Take* are proved to leave exactly the zero state "
-          "(mode, markerOpen, validUntil, content)."),
+          "(mode, markerOpen, validUntil, content); grow keeps offsets; an array reinterpreted as a string (unsafe cast in String / "
+          "Take*) must no longer be reachable from the buffer when the function returns (alias.cast)."),
     ref="DESIGN 4 (C13)",
     note=TRUST + "That later operations depend only on fields and visible bytes (not on bytes beyond len) is Go semantics. "
          "'Len == len(RedactableString())' needs determinism of finalize (a 2-run statement) and is checked only by the bounded replay harness.",
@@ -182,7 +189,9 @@ P["C14"] = dict(
     text=("MakeFormat is verified against a ghost parser of fmt's directive grammar driven by the assumed contracts of "
           "strings.Builder: on every path the emitted tokens are '%', then exactly the flags the State reports, then the width "
           "iff present, then '.'+precision iff present, then the verb; the bare %v/%s/%d shortcuts return exactly those literals; "
-          "the printer's own fmt.State methods (Flag/Width/Precision) return the active directive's fields."),
+          "a width that is present and 0 is NOT emitted (fmt would read '0' as the zero-padding flag; finding F6); "
+          "the printer's own fmt.State methods (Flag/Width/Precision) return the active directive's fields; ReproducePrintf makes "
+          "exactly one call into fmt: Fprint for the bare %v, otherwise Fprintf with the rebuilt directive and the operand itself."),
     ref="DESIGN 4 (C14)",
     note=TRUST + "That fmt parses such a string back into the same directive is the assumed contract on the dependency; strconv.Itoa "
          "is assumed to render its argument; behaviour of fmt itself ('prints exactly like x') is not re-verified.",
@@ -204,7 +213,8 @@ P["C16"] = dict(
     text=("Every route (Sprint/Fprint/Sprintln/Fprintln/Sprintf/Fprintf/HelperForErrorf, StringBuilder.Print/Printf, SafePrinter "
           "Print/Printf) is proved to run the shared funnel (doPrint/doPrintf/doPrintln) exactly once on its printer with its own "
           "operand list (and format), on every normal path; F-variants perform exactly one Write and return its (n, err); builder "
-          "and nested routes inline the inner output in raw mode / hand the outer buffer over and back."),
+          "and nested routes inline the inner output in raw mode / hand the outer buffer over and back; doPrint/doPrintln require "
+          "cleared directive flags (FlagsClear), so a nested Print cannot inherit %+v/%#v from the directive being served."),
     ref="DESIGN 4 (C16)",
     note=TRUST + "Given the same funnel call, equality of the produced text across routes up to envelope merging is a relational "
          "statement about two runs and is not expressed.",
@@ -216,7 +226,8 @@ P["C17"] = dict(
     text=("In handleMethods: an error operand that is neither SafeFormatter nor SafeMessager, with a hook registered and not under "
           "Unsafe, is handled by calling the hook (ghost counter) with the operand itself and the active verb (%w rewritten to %v) "
           "before any other user method; no other user method runs for it; under Unsafe the hook/SafeFormatter/SafeMessager sites "
-          "are unreachable; the call is under catchPanic."),
+          "are unreachable; the call is under catchPanic; RegisterRedactErrorFn stores exactly the function it was given "
+          "(ensures redactErrorFn == fn) and is the only writer of that variable (frame.global + shared-state scan)."),
     ref="DESIGN 4 (C17)",
     note=TRUST + "Errors reached through reflection (fields, slices, maps) get to handleMethods through printValue's dispatch, whose "
          "reflect preconditions are assumed.",
